@@ -1659,6 +1659,20 @@ impl<T: Transport + 'static> SyncEngine<T> {
                     tracing::warn!("✗ Mismatch (directory in destination): {}", rel_path.display());
                     continue;
                 }
+                // Symbolic links are compared by their target text, never read through: two equal
+                // links to a directory, or two equal dangling links, are not read errors
+                if source_file.is_symlink || dest_file.is_symlink {
+                    if source_file.is_symlink
+                        && dest_file.is_symlink
+                        && source_file.symlink_target == dest_file.symlink_target
+                    {
+                        files_matched += 1;
+                    } else {
+                        files_mismatched.push(rel_path.clone());
+                        tracing::warn!("✗ Mismatch (symbolic link): {}", rel_path.display());
+                    }
+                    continue;
+                }
                 // File exists in both - compare checksums
                 match self.compare_checksums(&source_file.path, &dest_file.path, &verifier) {
                     Ok(true) => {
@@ -1703,8 +1717,9 @@ impl<T: Transport + 'static> SyncEngine<T> {
                 .to_path_buf();
 
             // Build corresponding source path (a source DIRECTORY of that name is no counterpart)
+            // (looked at without following a symbolic link there)
             let source_path = source.join(&rel_path);
-            if !source_path.exists() || source_path.is_dir() {
+            if std::fs::symlink_metadata(&source_path).map_or(true, |m| m.is_dir()) {
                 files_only_in_dest.push(rel_path.clone());
                 tracing::info!("← Only in destination: {}", rel_path.display());
             }
